@@ -5,6 +5,7 @@ from ..facts import REPO
 from ..rules_e1 import run_e1
 import os
 from ..rules_dep import run_dep
+from ..rules_signpair import run_loneabs
 
 ARRAYS = ["VERBOSE_SINGULAR", "VERBOSE_PLURAL", "SHORT_SINGULAR", "SHORT_PLURAL", "COMPACT", "HUMAN_TIME_SINGULAR", "HUMAN_TIME_PLURAL"]
 
@@ -37,6 +38,7 @@ def find_arms():
 
 def run(ctx, rep):
     run_dep(ctx, rep, "C15")
+    run_loneabs(ctx, rep)
     prog = ctx.prog("Q")
     rep.notes.append("Does not decide numeric round trips, fraction carry or option interactions.")
     rep.rule("LABEL-TABLE", "for each of the 7 designator arrays D of the friendly printer and each unit index i, first-match evaluation of "
